@@ -1,13 +1,22 @@
 use crate::fw::{Report, Tier};
 use serde_json::Value;
 
+pub mod c01_handlers;
+pub mod c02_durable;
 pub mod c03_2pc;
+pub mod c04_relq;
+pub mod c05_graph;
 pub mod c06_search;
 pub mod c07_snapshot;
+pub mod c09_reltx;
+pub mod c10_raftwal;
 pub mod c12_locks;
 pub mod c13_txrecovery;
+pub mod c14_vault;
+pub mod c15_parser;
 pub mod c16_chain;
 pub mod c17_merge;
+pub mod c18_paths;
 pub mod c19_blob;
 pub mod c20_ids;
 
@@ -16,13 +25,22 @@ pub type ReplayFn = fn(&str, &Value) -> Result<String, String>;
 
 pub fn all() -> Vec<(&'static str, RunFn, ReplayFn)> {
     vec![
+        ("c01_handlers", c01_handlers::run, c01_handlers::replay),
+        ("c02_durable", c02_durable::run, c02_durable::replay),
         ("c03_2pc", c03_2pc::run, c03_2pc::replay),
+        ("c04_relq", c04_relq::run, c04_relq::replay),
+        ("c05_graph", c05_graph::run, c05_graph::replay),
         ("c06_search", c06_search::run, c06_search::replay),
         ("c07_snapshot", c07_snapshot::run, c07_snapshot::replay),
+        ("c09_reltx", c09_reltx::run, c09_reltx::replay),
+        ("c10_raftwal", c10_raftwal::run, c10_raftwal::replay),
         ("c12_locks", c12_locks::run, c12_locks::replay),
         ("c13_txrecovery", c13_txrecovery::run, c13_txrecovery::replay),
+        ("c14_vault", c14_vault::run, c14_vault::replay),
+        ("c15_parser", c15_parser::run, c15_parser::replay),
         ("c16_chain", c16_chain::run, c16_chain::replay),
         ("c17_merge", c17_merge::run, c17_merge::replay),
+        ("c18_paths", c18_paths::run, c18_paths::replay),
         ("c19_blob", c19_blob::run, c19_blob::replay),
         ("c20_ids", c20_ids::run, c20_ids::replay),
     ]
